@@ -469,9 +469,9 @@ where
             let bit = ((repr >> (symbol_len - level - 1)) & 1) == 1;
 
             result = if bit {
-                self.bvs[level].select1(rank_b + result)
+                self.bvs[level].select1(rank_b.checked_add(result)?)
             } else {
-                self.bvs[level].select0(rank_b + result)
+                self.bvs[level].select0(rank_b.checked_add(result)?)
             }? - b;
         }
 
